@@ -60,6 +60,22 @@ def run(rep, tier, driver):
                          "GlcOct": ("Glc", 8), "LyxHex": ("Lyx", 6), "RibHex": ("Rib", 6), "DDGlcHep": ("Glc", 7), "LDGalHep": ("Gal", 7)}.items():
         jobs[nm] = (par, "length", (n,))
     jobs = {k: v for k, v in jobs.items() if v is not None}
+    # the same transformations on parents written with an explicit series prefix ('D-Ido-ol' relative to 'D-Ido'): all open forms,
+    # a sample of the others
+    series = {}
+    for row in t["pyranose"] + t["furanose"]:
+        if "_" not in row["key"] and row.get("isomer") in (0, 1):      # Enantiomer.D / Enantiomer.L (2 = undefined series)
+            series[row["key"]] = row["isomer"]
+    pref_jobs = {}
+    for name, (par, op, args) in sorted(jobs.items()):
+        code = par[:-1] if par.endswith("f") and par[:-1] in vocab.sac else par
+        if code.upper() not in series or op == "length" or name[0].isdigit():
+            continue
+        if op in ("ol", "onic", "aric") or rng.random() < (0.08 if tier == "quick" else 0.5):
+            for pre in ("D-", "L-"):
+                pref_jobs[pre + name] = (pre + par, op, args)
+    jobs.update(pref_jobs)
+    parents = parents + sorted({v[0] for v in pref_jobs.values()})
     # pairwise combinations (sampled)
     combos = []
     for _ in range(40 if tier == "quick" else 600):
